@@ -212,6 +212,16 @@ def _rolling_rows(ctx, f):
             _, rb = pat.first(f"{P} = D", lp)
             outer, D = lp, rb["D"]
             break
+        if isinstance(lp, ast.For) and isinstance(lp.target, ast.Name):
+            # two preallocated rows swapped at the end of each pass: `P, D = D, P`
+            for s_ in lp.body:
+                if isinstance(s_, ast.Assign) and isinstance(s_.targets[0], ast.Tuple) and isinstance(s_.value, ast.Tuple) \
+                        and [dotted(x) for x in s_.targets[0].elts] == [dotted(x) for x in reversed(s_.value.elts)] \
+                        and len(s_.value.elts) == 2 and P in [dotted(x) for x in s_.value.elts]:
+                    outer, D = lp, next(dotted(x) for x in s_.value.elts if dotted(x) != P)
+                    break
+            if outer is not None:
+                break
     if outer is None or D == P:
         return False
     I = outer.target.id
@@ -229,6 +239,18 @@ def _rolling_rows(ctx, f):
                       ": cells left at 0 make deleting a whole prefix free, so two different scalars (e.g. -5 vs 5, 10 vs 0) "
                       "get cost 0")
     rec = pat.first(f"{D}[J] = min({P}[J] + 1, {D}[J - 1] + 1, {P}[J - 1] + K)", outer)[0]
+    if rec is None:
+        # the three neighbours in any order
+        for a_ in walk_no_nested(outer):
+            if isinstance(a_, ast.Assign) and isinstance(a_.targets[0], ast.Subscript) and dotted(a_.targets[0].value) == D \
+                    and isinstance(a_.value, ast.Call) and call_name(a_.value) == "min" and len(a_.value.args) == 3:
+                J = ast.unparse(a_.targets[0].slice).replace(" ", "")
+                args_ = sorted(ast.unparse(x).replace(" ", "") for x in a_.value.args)
+                fixed = sorted([f"{P}[{J}]+1", f"{D}[{J}-1]+1"])
+                diag = [x for x in args_ if x.startswith(f"{P}[{J}-1]+")]
+                rest = sorted(x for x in args_ if x not in diag)
+                if rest == fixed and len(diag) == 1 and diag[0] != f"{P}[{J}-1]+1":
+                    rec = a_
     if rec is not None:
         ctx.proved("R02c", f.file, "levenshtein_distance", rec, "recurrence", "each cell is the minimum over delete / insert / substitute")
     else:
